@@ -336,6 +336,8 @@ fn plan(property: &str, tier: &str) -> Vec<(&'static str, &'static str, usize)> 
             if quick {
                 vec![
                     ("bytes", "rb_raw+k0", 4),
+                    ("bytes", "rb_raw+k2", 5),
+                    ("pco", "rb_dense+k1", 5),
                     ("bytes", "rb_raw+k1+faults", 4),
                     ("bytes", "rb_raw+k2+faults", 4),
                 ]
